@@ -1,7 +1,7 @@
 /* C01 / C03 correspondence + monitor harness: esl_msafile*.c, esl_msa.c on top of esl_buffer.c
  *
  * ops (one result line each):
- *   parse fmt=<f|auto> abc=<text|amino|dna|rna|guess> src=<mem|file|allfile|mmap|stream> ps=<pagesize|0> [sfx=<suffix>] hex=<bytes>
+ *   parse fmt=<f|auto> abc=<text|amino|dna|rna|guess> src=<mem|file|allfile|mmap|stream> ps=<pagesize|0> [sfx=<suffix>] [nw=<PHYLIP name width given in an ESL_MSAFILE_FMTDATA>] hex=<bytes>
  *       open the bytes, read alignments until a non-OK status (at most 64), dump each MSA, validate each.
  *   rt fmt=<f> abc=<text|amino|dna|rna> [via=direct [nw=<namewidth> rpl=<residues per line>]] <msa fields>
  *       build the MSA through the public API, write it (esl_msafile_Write dispatch, or via=direct the format's own
@@ -174,6 +174,8 @@ static unsigned char *g_exact;   /* exact-size copy of the input for src=mem */
 static FILE *g_stream;      /* FILE* behind a stream-mode buffer (closed by us after esl_msafile_Close) */
 static char  g_path[64];
 
+static ESL_MSAFILE_FMTDATA *g_ofd;     /* parse nw=: format data handed to esl_msafile_Open* (NULL = none) */
+
 static int open_source(ESL_ALPHABET **byp, const unsigned char *b, int64_t n, int fmt, const char *src, int ps, const char *sfx, ESL_MSAFILE **ret_afp)
 {
   int status;
@@ -182,7 +184,7 @@ static int open_source(ESL_ALPHABET **byp, const unsigned char *b, int64_t n, in
   if (!strcmp(src, "mem")) {
     free(g_exact); g_exact = malloc(n > 0 ? (size_t) n : 1);
     if (n > 0) memcpy(g_exact, b, (size_t) n);
-    status = esl_msafile_OpenMem(byp, (const char *) g_exact, n, fmt, NULL, ret_afp);
+    status = esl_msafile_OpenMem(byp, (const char *) g_exact, n, fmt, g_ofd, ret_afp);
   } else {
     FILE *fp;
     snprintf(g_path, sizeof(g_path), "h_msafile_%d.%s", (int) getpid(), sfx ? sfx : "dat");
@@ -194,13 +196,13 @@ static int open_source(ESL_ALPHABET **byp, const unsigned char *b, int64_t n, in
       g_stream = fopen(g_path, "rb");
       status = esl_buffer_OpenStream(g_stream, &bf);
       if (status != eslOK) { *ret_afp = NULL; esl_verif_buffer_pagesize = 0; return status; }
-      status = esl_msafile_OpenBuffer(byp, bf, fmt, NULL, ret_afp);
+      status = esl_msafile_OpenBuffer(byp, bf, fmt, g_ofd, ret_afp);
       /* on failure esl_msafile_OpenBuffer() either returns afp (holding bf) or has closed bf itself */
     } else {
       if      (!strcmp(src, "file"))    esl_verif_buffer_forcemode = eslBUFFER_FILE;
       else if (!strcmp(src, "allfile")) esl_verif_buffer_forcemode = eslBUFFER_ALLFILE;
       else if (!strcmp(src, "mmap"))    esl_verif_buffer_forcemode = eslBUFFER_MMAP;
-      status = esl_msafile_Open(byp, g_path, NULL, fmt, NULL, ret_afp);
+      status = esl_msafile_Open(byp, g_path, NULL, fmt, g_ofd, ret_afp);
     }
   }
   esl_verif_buffer_pagesize = 0; esl_verif_buffer_forcemode = 0;
@@ -250,7 +252,11 @@ static void op_parse(void)
   else if (!strcmp(as, "guess")) { byp = &abc; guess = 1; }
   else { abc = esl_alphabet_Create(abc_type(as)); byp = &abc; }
   sb_reset();
-  status = open_source(byp, b, n, fmt, src, ps, sfx, &afp);
+  { ESL_MSAFILE_FMTDATA ofd;       /* nw=<k>: the caller's ESL_MSAFILE_FMTDATA (PHYLIP name width); absent = NULL */
+    esl_msafile_fmtdata_Init(&ofd); g_ofd = NULL;
+    if (h_arg("nw")) { ofd.namewidth = (int) h_argi("nw", 0); g_ofd = &ofd; }
+    status = open_source(byp, b, n, fmt, src, ps, sfx, &afp);
+    g_ofd = NULL; }
   sb_printf("open=%s", h_status(status));
   if (status != eslOK) {
     if (afp) sb_puts(afp->errmsg[0] ? ":msg" : ":nomsg"); else sb_puts(":noafp");
